@@ -9,6 +9,8 @@ import Driver.C08
 import Driver.C06
 import Driver.C03
 import Driver.C14
+import Driver.C01
+import Driver.C02
 open Driver
 
 def dispatch (id : String) (toks : List String) (impl : String) : Verdict :=
@@ -23,6 +25,8 @@ def dispatch (id : String) (toks : List String) (impl : String) : Verdict :=
   | "C06" => Driver.C06.handle toks impl
   | "C03" => Driver.C03.handle toks impl
   | "C14" => Driver.C14.handle toks impl
+  | "C01" => Driver.C01.handle toks impl
+  | "C02" => Driver.C02.handle toks impl
   | _ => badOp "unknown property"
 
 /-- Split `line` at the first occurrence of " => ". -/
